@@ -5,7 +5,8 @@
    conditions). The protobuf schema is an oracle (which field paths resolve / are usable selectors);
    unicode.IsLetter / IsNumber are parameters (Sane: the grammar's delimiters are neither). *)
 From Larking Require Import Base.GoSem Model.Lexer Model.Trie Model.Match Spec.Grammar Spec.Route
-  Proofs.LexerProofs Proofs.MatchProofs Proofs.TrieProofs Proofs.RoutingProofs.
+  Spec.Template Spec.TemplateAbs
+  Proofs.LexerProofs Proofs.MatchProofs Proofs.TrieProofs Proofs.RoutingProofs Proofs.TemplateProofs.
 Local Open Scope N_scope.
 
 (* the lexer accepts exactly the grammar: every accepted template is a derivation whose tokens spell
@@ -20,6 +21,27 @@ Proof.
   - intros (HT & Hs & Hl). rewrite <- Hs. exact (lex_template_complete isLetter isNumber sane toks HT Hl).
 Qed.
 Print Assumptions C16_lexer_exact.
+
+(* the independent, string-splitting template reader of Spec/Template.v -- the oracle that judges the
+   real implementation in the correspondence run -- accepts exactly the templates the lexer model
+   accepts, and the two read the same structure (AbsT: segments, variables with field path and pattern,
+   verb); so "larking accepts what the documentation's grammar describes" is checked against the Go
+   code by a reader that shares nothing with the model but is proved to agree with it *)
+Theorem C16_oracle_agrees : forall isLetter isNumber, Sane isLetter isNumber -> forall s,
+  (forall t, parse_tmpl isLetter isNumber s = Some t ->
+     exists toks, lex_template isLetter isNumber s = Ok toks /\ AbsT toks t) /\
+  (forall toks, lex_template isLetter isNumber s = Ok toks ->
+     exists t, parse_tmpl isLetter isNumber s = Some t /\ AbsT toks t).
+Proof. exact template_oracle_agrees_with_lexer. Qed.
+Print Assumptions C16_oracle_agrees.
+
+(* ... and, without any assumption on the classifiers, what the reader accepts is a derivation of the
+   documented grammar whose tokens spell the text, within the 64-token limit *)
+Theorem C16_oracle_sound : forall isLetter isNumber s t,
+  parse_tmpl isLetter isNumber s = Some t ->
+  exists toks, Tmpl isLetter isNumber toks /\ spell toks = s /\ (length toks <= 64)%nat /\ AbsT toks t.
+Proof. exact template_parser_to_grammar. Qed.
+Print Assumptions C16_oracle_sound.
 
 (* the lexer never panics and never runs out of fuel, on any text and any classifier *)
 Theorem C16_lexer_total : forall isLetter isNumber t, LexerProofs.benign (lex_template isLetter isNumber t).
